@@ -8,7 +8,12 @@
      source order (`limitGuard<i>` / `limitValue<i>` / `limitSteps`), the expression passed as the
      kernel's limit (`kernelLimit`) and the row taken for a single column (`singleIndex`);
    * `ascii_table`: the limit the display passes to `t.collect(i, …)` inside the argument of
-     `calculate_data_width` (`measureLimit`, `none` = no limit).
+     `calculate_data_width` (`measureLimit`, `none` = no limit), and **which column is handed to the
+     helper for each printed column** (`measureRefs`): the iteration the measuring call sits in
+     (`for i in range(t.columncount)`, `for name in t.column_names`, `enumerate(…)`; single-assignment
+     locals inlined) and the first argument of `t.collect(…)` as a function of the loop variable --
+     `Sum.inl` = a position, `Sum.inr` = a name (which `DataFrame.collect` resolves to the *first*
+     column of that name).
    `Model/CallSites.lean` is assembled from these, `Props/C10.lean` proves "public collect = the
    plain-Python definition for every limit" and "data widths are measured over every printed row"
    about them.  A shape the extractor does not recognise degrades to the pinned text.
@@ -53,6 +58,39 @@ def scan_call_sites(repo):
                         if name in KERNELS:
                             out.append({"file": rel, "function": qual or "<module>", "kernel": name, "line": ch.lineno,
                                         "args": [ast.unparse(a) for a in ch.args] + ["%s=%s" % (k.arg, ast.unparse(k.value)) for k in ch.keywords]})
+                    visit(ch, q)
+
+            visit(tree, "")
+    return out
+
+
+def scan_collect_callers(repo):
+    """[{file, line, function, column}] for every `<frame>.collect(…)` in orso/**/*.py: the second-level call sites of
+    `collect_cython` (informational: which of them ask for a column by *name*, which `DataFrame.collect` resolves to the
+    first column so named)."""
+    out = []
+    root = os.path.join(repo, "orso")
+    for d, _, files in sorted(os.walk(root)):
+        for f in sorted(files):
+            if not f.endswith(".py"):
+                continue
+            path = os.path.join(d, f)
+            rel = os.path.relpath(path, repo)
+            try:
+                tree = ast.parse(open(path, encoding="utf-8").read())
+            except (OSError, SyntaxError):
+                continue
+
+            def visit(node, qual):
+                for ch in ast.iter_child_nodes(node):
+                    q = qual
+                    if isinstance(ch, (ast.FunctionDef, ast.AsyncFunctionDef, ast.ClassDef)):
+                        q = (qual + "." if qual else "") + ch.name
+                    if isinstance(ch, ast.Call) and isinstance(ch.func, ast.Attribute) and ch.func.attr == "collect" and (ch.args or ch.keywords):
+                        a = ch.args[0] if ch.args else next((k.value for k in ch.keywords if k.arg == "columns"), None)
+                        if a is not None:
+                            out.append({"file": rel, "line": ch.lineno, "function": qual or "<module>",
+                                        "receiver": ast.unparse(ch.func.value)[:30], "column": ast.unparse(a)[:40]})
                     visit(ch, q)
 
             visit(tree, "")
@@ -159,6 +197,76 @@ def kernel_limit(fn):
     raise KeyError("collect_cython call")
 
 
+INT32_DTYPES = ("numpy.int32", "np.int32", "'int32'", "'i4'", "'<i4'", "'=i4'")
+
+
+def index_conversion(fn):
+    """How the resolved positions become the kernel's int32 buffer (second argument of the kernel call):
+    True  = a conversion that rejects a value outside int32 (`numpy.array(x, dtype=numpy.int32)` raises OverflowError),
+    False = one that wraps it around (`numpy.asarray(x).astype(numpy.int32)`)."""
+    for n in ast.walk(fn):
+        if isinstance(n, ast.Call) and isinstance(n.func, ast.Name) and n.func.id == "collect_cython":
+            kw = {k.arg: k.value for k in n.keywords}
+            a = n.args[1] if len(n.args) >= 2 else kw.get("columns")
+            if a is None:
+                raise KeyError("the kernel call has no column buffer")
+            a = _inline(a, [fn]) if isinstance(a, ast.Name) else a
+
+            def ctor(c):
+                return (isinstance(c, ast.Call) and ast.unparse(c.func) in ("numpy.array", "np.array", "numpy.asarray", "np.asarray")
+                        and len(c.args) >= 1 and isinstance(c.args[0], ast.Name))
+
+            if ctor(a):
+                dt = {k.arg: k.value for k in a.keywords}.get("dtype") or (a.args[1] if len(a.args) > 1 else None)
+                if dt is not None and ast.unparse(dt) in INT32_DTYPES and len(a.args) <= 2:
+                    return True
+                raise KeyError("column buffer built without dtype=int32")
+            if isinstance(a, ast.Call) and isinstance(a.func, ast.Attribute) and a.func.attr == "astype" and ctor(a.func.value) \
+                    and len(a.args) == 1 and ast.unparse(a.args[0]) in INT32_DTYPES:
+                inner = a.func.value
+                dt = {k.arg: k.value for k in inner.keywords}.get("dtype") or (inner.args[1] if len(inner.args) > 1 else None)
+                if dt is not None and ast.unparse(dt) in INT32_DTYPES:
+                    return True   # already int32 (checked) before the no-op astype
+                return False
+            raise KeyError("column buffer of an unknown shape: " + ast.unparse(a)[:50])
+    raise KeyError("collect_cython call")
+
+
+def row_new_guard(tree):
+    """`Row.__new__`: which dictionaries reach `extract_dict_columns` -- (the guard admits subclasses of dict,
+    a subclass is copied into an exact dict before the call (the helper takes exact dictionaries only))."""
+    fn = find_function(tree, "__new__", "Row")
+    guards = [n for n in fn.body if isinstance(n, ast.If) and any(
+        isinstance(c, ast.Call) and isinstance(c.func, ast.Name) and c.func.id == "extract_dict_columns" for c in ast.walk(n))]
+    if len(guards) != 1 or guards[0].orelse:
+        raise KeyError("if <data is a dictionary>: … extract_dict_columns(…)")
+    g = guards[0]
+    test = ast.unparse(g.test)
+    if test == "isinstance(data, dict)":
+        sub = True
+    elif test in ("type(data) is dict", "type(data) == dict", "data.__class__ is dict"):
+        sub = False
+    else:
+        raise KeyError("guard of an unknown shape: " + test[:40])
+    calls = [c for c in ast.walk(g) if isinstance(c, ast.Call) and isinstance(c.func, ast.Name) and c.func.id == "extract_dict_columns"]
+    if len(calls) != 1 or [ast.unparse(a) for a in calls[0].args] != ["data", "cls._fields"] or calls[0].keywords:
+        raise KeyError("extract_dict_columns(data, cls._fields)")
+    norm = False
+    for st in g.body:
+        if any(c is calls[0] for c in ast.walk(st)):
+            break
+        if isinstance(st, ast.Assign) and ast.unparse(st) == "data = dict(data)":
+            norm = True
+        elif isinstance(st, ast.If) and not st.orelse and ast.unparse(st.test) in ("type(data) is not dict", "type(data) != dict", "not type(data) is dict") \
+                and len(st.body) == 1 and ast.unparse(st.body[0]) == "data = dict(data)":
+            norm = True
+        elif isinstance(st, ast.Expr) and isinstance(st.value, ast.Constant):
+            pass
+        else:
+            raise KeyError("statement before the helper call: " + ast.unparse(st)[:40])
+    return [sub, norm]
+
+
 def single_index(fn):
     for n in ast.walk(fn):
         if isinstance(n, ast.If) and ast.unparse(n.test) == "single" and len(n.body) == 1 and isinstance(n.body[0], ast.Return):
@@ -216,6 +324,112 @@ def display_measure_limit(tree):
     raise KeyError("calculate_data_width is not called in ascii_table")
 
 
+NAMES_TEXTS = ("t.column_names", "list(t.column_names)", "tuple(t.column_names)")
+COUNT_TEXTS = ("t.columncount", "len(t.column_names)", "len(list(t.column_names))", "len(tuple(t.column_names))")
+PINNED_REFS = "((List.range names.length).map (fun i => (Sum.inl (Int.ofNat i) : Sum Int String)))"
+
+
+def _inline_all(node, scopes):
+    """`_inline` applied to every name of an expression (names that cannot be resolved stay)."""
+    import copy
+
+    class T(ast.NodeTransformer):
+        def visit_Name(self, n):
+            if isinstance(n.ctx, ast.Load) and n.id not in ("t", "limit"):
+                try:
+                    return copy.deepcopy(_inline(n, scopes))
+                except KeyError:
+                    return n
+            return n
+
+    return T().visit(copy.deepcopy(node))
+
+
+def _measure_call(at):
+    calls = [n for n in ast.walk(at) if isinstance(n, ast.Call) and isinstance(n.func, ast.Name) and n.func.id == "calculate_data_width"]
+    if len(calls) != 1:
+        raise KeyError("calculate_data_width is called %d times in ascii_table" % len(calls))
+    n = calls[0]
+    if len(n.args) != 1 or n.keywords:
+        raise KeyError("calculate_data_width takes one argument")
+    c = n.args[0]
+    if not (isinstance(c, ast.Call) and isinstance(c.func, ast.Attribute) and c.func.attr == "collect" and ast.unparse(c.func.value) == "t"):
+        raise KeyError("the measured column is not t.collect(...)")
+    kw = {k.arg: k.value for k in c.keywords}
+    args = list(c.args)
+    if "columns" in kw:
+        args.insert(0, kw.pop("columns"))
+    if not args:
+        raise KeyError("t.collect() without a column")
+    return n, args[0]
+
+
+def display_measure_refs(tree):
+    """Lean term (in `names : List String`) for the list of column references measured, one per printed column."""
+    at = find_function(tree, "ascii_table")
+    scopes = [at]
+    call, ref = _measure_call(at)
+    parents = {}
+    for p in ast.walk(at):
+        for ch in ast.iter_child_nodes(p):
+            parents[ch] = p
+    node, target, it = call, None, None
+    while node in parents:
+        child, node = node, parents[node]
+        if isinstance(node, (ast.ListComp, ast.GeneratorExp)):
+            g = node.generators
+            if len(g) != 1 or g[0].ifs or g[0].is_async or node.elt is not child:
+                raise KeyError("the measuring comprehension is filtered / nested / wraps the call")
+            target, it = g[0].target, g[0].iter
+            break
+        if isinstance(node, ast.For):
+            if node.orelse or any(isinstance(x, (ast.Break, ast.Continue, ast.Return)) for b in node.body for x in ast.walk(b)):
+                raise KeyError("the measuring loop can skip columns")
+            st = child
+            while st in parents and parents[st] is not node:
+                st = parents[st]
+            if not (st in node.body and isinstance(st, ast.Expr) and isinstance(st.value, ast.Call) and ast.unparse(st.value.func).endswith(".append")
+                    and st.value.args and st.value.args[0] is call):
+                raise KeyError("the measuring loop does not append one width per turn")
+            target, it = node.target, node.iter
+            break
+        if isinstance(node, (ast.FunctionDef, ast.Lambda, ast.SetComp, ast.DictComp, ast.While, ast.If, ast.IfExp)):
+            raise KeyError("the measuring call is not directly inside a loop over the columns")
+    if it is None:
+        raise KeyError("the measuring call is not inside a loop")
+    it = _inline_all(it, scopes)
+    text = ast.unparse(it)
+    idx = name = None
+    if isinstance(it, ast.Call) and isinstance(it.func, ast.Name) and it.func.id == "range" and len(it.args) == 1 and not it.keywords \
+            and ast.unparse(it.args[0]) in COUNT_TEXTS and isinstance(target, ast.Name):
+        idx = target.id
+        shape = "((List.range names.length).map (fun %s => (%%s : Sum Int String)))" % idx
+    elif text in NAMES_TEXTS and isinstance(target, ast.Name):
+        name = target.id
+        shape = "(names.map (fun %s => (%%s : Sum Int String)))" % name
+    elif isinstance(it, ast.Call) and isinstance(it.func, ast.Name) and it.func.id == "enumerate" and len(it.args) == 1 and not it.keywords \
+            and ast.unparse(it.args[0]) in NAMES_TEXTS and isinstance(target, ast.Tuple) and len(target.elts) == 2 \
+            and all(isinstance(e, ast.Name) for e in target.elts):
+        idx, name = target.elts[0].id, target.elts[1].id
+        shape = "(names.zipIdx.map (fun ((%s, %s) : String × Nat) => (%%s : Sum Int String)))" % (name, idx)
+    else:
+        raise KeyError("the measuring loop does not range over the columns in a known way: " + text[:40])
+    for v in (idx, name):
+        if v is not None and (not (v.isidentifier() and v.isascii()) or v in ("names", "fun", "Sum", "List", "Int", "String", "Nat")):
+            raise KeyError("loop variable %r" % v)
+    ref = _inline_all(ref, scopes) if not isinstance(ref, ast.Name) else ref
+    if isinstance(ref, ast.Name) and ref.id == idx:
+        r = "Sum.inl (Int.ofNat %s)" % idx
+    elif isinstance(ref, ast.Name) and ref.id == name:
+        r = "Sum.inr %s" % name
+    elif idx is not None and isinstance(ref, ast.Subscript) and ast.unparse(ref.value) in NAMES_TEXTS and isinstance(ref.slice, ast.Name) \
+            and ref.slice.id == idx:
+        r = "Sum.inr (names.getD %s \"\")" % idx
+    else:
+        raise KeyError("the measured column is not the loop variable: " + ast.unparse(ref)[:40])
+    return shape % r
+
+
 def generate(o):
     df = Src("orso/dataframe.py")
     disp = Src("orso/display.py")
@@ -226,7 +440,10 @@ def generate(o):
     steps = o.item("site.collect.limit_steps", lambda: collect_limit_steps(fn_collect()), PINNED_STEPS)
     kl = o.item("site.collect.kernel_limit", lambda: kernel_limit(fn_collect()), "limit")
     si = o.item("site.collect.single_index", lambda: single_index(fn_collect()), 0)
+    ic = o.item("site.collect.index_conversion_checked", lambda: index_conversion(fn_collect()), True)
+    rg = o.item("site.row.new_guard", lambda: row_new_guard(Src("orso/row.py").tree), [True, True])
     ml = o.item("site.display.measure_limit", lambda: display_measure_limit(disp.tree), "none")
+    mr = o.item("site.display.measure_refs", lambda: display_measure_refs(disp.tree), PINNED_REFS)
     o.item("site.table", lambda: [[s["file"], s["function"], s["kernel"], s["args"]] for s in scan_call_sites(df.path[: -len("orso/dataframe.py")])], [])
 
     t = HEADER + "set_option linter.unusedVariables false\nnamespace Gen.CallSites\n"
@@ -242,7 +459,17 @@ def generate(o):
     t += "@[simp] def kernelLimit (limit : Int) : Int := %s\n" % kl
     t += "/-- DataFrame.collect: `return collected[k]` for a single column -/\n"
     t += "@[simp] def singleIndex : Nat := %d\n" % si
+    t += "/-- DataFrame.collect: the resolved positions become the kernel's int32 buffer by a conversion that *rejects* a value\n"
+    t += "outside int32 (`numpy.array(…, dtype=numpy.int32)`: OverflowError) -- `false`: by one that wraps it around (`.astype`) -/\n"
+    t += "def indexConvChecked : Bool := %s\n" % ("true" if ic else "false")
+    t += "/-- Row.__new__: the test in front of `extract_dict_columns` admits subclasses of dict (`isinstance(data, dict)`) -- `false`:\n"
+    t += "exact dictionaries only (`type(data) is dict`); and: a subclass is copied into an exact dict before the call -/\n"
+    t += "def rowGuardAdmitsSubclass : Bool := %s\n" % ("true" if rg[0] else "false")
+    t += "def rowCopiesSubclass : Bool := %s\n" % ("true" if rg[1] else "false")
     t += "/-- ascii_table: the limit passed to `t.collect(i, …)` inside `calculate_data_width(…)`; `none` = not limited -/\n"
     t += "@[simp] def measureLimit (limit : Int) : Option Int := %s\n" % ml
+    t += "/-- ascii_table: the column handed to `t.collect(…)` for each printed column, in order: `Sum.inl` = a position,\n"
+    t += "`Sum.inr` = a name (resolved by `DataFrame.collect` to the first column of that name) -/\n"
+    t += "def measureRefs (names : List String) : List (Sum Int String) := %s\n" % mr
     t += "end Gen.CallSites\n"
     o.files["CallSitesExpr.lean"] = t
